@@ -517,9 +517,10 @@ class PathResult:
         self.ctx = None   # the path context (and its solver) is not retained: only pc / decisions are needed later
 
 
-def explore(run, max_paths=20000, timeout_ms=20000, base_pc=(), initial=None):
+def explore(run, max_paths=20000, timeout_ms=20000, base_pc=(), initial=None, on_result=None):
     """Enumerate all feasible paths of `run(ctx)`; returns list of PathResult.
-    initial: decision prefixes to start from (only their extensions are explored)."""
+    initial: decision prefixes to start from (only their extensions are explored).
+    on_result: if given, each PathResult is handed to it (with its index) and not retained (streaming: large spaces)."""
     worklist = [list(d) for d in initial] if initial is not None else [[]]
     results = []
     # results of earlier explorations that took part in reference cycles were promoted to the oldest generation while
@@ -528,20 +529,27 @@ def explore(run, max_paths=20000, timeout_ms=20000, base_pc=(), initial=None):
     if GC_EVERY and _gc_state[0] >= 300:
         _gc_state[0] = 0
         gc.collect()
+    n_done = 0
     while worklist:
-        if len(results) >= max_paths:
+        if n_done >= max_paths:
             raise UnwindExceeded(f"more than {max_paths} paths")
         dec = worklist.pop()
         ctx = Ctx(dec, worklist, timeout_ms=timeout_ms, base_pc=base_pc)
         try:
             v = run(ctx)
-            results.append(PathResult("ok", v, ctx))
+            res = PathResult("ok", v, ctx)
         except Panic as p:
-            results.append(PathResult("panic", p, ctx))
+            res = PathResult("panic", p, ctx)
         except Infeasible:
             continue
         except UnwindExceeded as u:
-            results.append(PathResult("unwind", u, ctx))
+            res = PathResult("unwind", u, ctx)
+        if on_result is not None:
+            on_result(n_done, res)
+            res = v = None
+        else:
+            results.append(res)
+        n_done += 1
         STATS.paths += 1
         _gc_state[0] += 1
         if GC_EVERY and STATS.paths % GC_EVERY == 0:
